@@ -41,10 +41,11 @@ theorem from_units_dag (hwf : g.WF) (hac : ¬ Cyclic g) (order : List Nat) (hper
         obtain ⟨f, hf, _⟩ := hfed 0 (by omega)
         have := (mem_sortedFeeds (feedsOf g order) fmass f).mpr hf
         rw [hsorted] at this; exact absurd this List.not_mem_nil
-    refine ⟨[], rfl, fun it hit => absurd hit List.not_mem_nil, ?_, ?_, ?_⟩
+    refine ⟨[], rfl, fun it hit => absurd hit List.not_mem_nil, ?_, by simp [Item.flat, flatList],
+      by simp [allRecycles, allRecyclesList], ?_, ?_⟩
     · intro u; simp [Item.flat, flatList, hn]
     · intro _
-      refine ⟨by simp [Item.flat, flatList], ?_, rfl⟩
+      refine ⟨?_, rfl⟩
       intro a b e
       have := Nat.lt_of_lt_of_le e.lt_outs_length hwf.outs_len
       omega
@@ -104,8 +105,8 @@ theorem from_units_dag (hwf : g.WF) (hac : ¬ Cyclic g) (order : List Nat) (hper
         · exact absurd (hall v hv) (mem_productsOf h v hk)
     obtain ⟨o, ho, hstop, hholds⟩ := sort_dag_holds hwf.sinksOK hwf.outs_len hends hac (st.path.map Item.unit) hflat
       (by rw [flatList_map_unit]; exact hexact) (by rw [flatList_map_unit]; exact inv.nodup)
-    have hrec : o.recycle = [] := (hholds.acyclic hac).2.2
-    have hnd : (flatList o.path).Nodup := by simpa [Item.flat] using (hholds.acyclic hac).1
+    have hrec : o.recycle = [] := (hholds.acyclic hac).2
+    have hnd : (flatList o.path).Nodup := by simpa [Item.flat] using hholds.once
     have hitem : sortItem g (addNew (addNew [] (productsOf g order)) (productsOf g st.path))
         (.net (st.path.map Item.unit) []) = .ok (.net o.path o.recycle, 0) := by
       unfold sortItem
@@ -128,16 +129,6 @@ theorem from_units_dag' (hwf : g.WF) (hsrc : ∀ s c, g.sourceOf s = some c → 
     dag_all_fed hwf hsrc (fun v hv => hin v ((hunits v).mp hv)) hac (fun v hv => (hunits v).mp hv) ((hunits u).mpr hu)
 
 /-! ## The cyclic half: statement, and what is proved of it -/
-
-mutual
-/-- `Network.get_all_recycles()` -/
-def allRecycles : Item → List Nat
-  | .unit _ => []
-  | .net p r => r ++ allRecyclesList p
-def allRecyclesList : List Item → List Nat
-  | [] => []
-  | i :: is => allRecycles i ++ allRecyclesList is
-end
 
 /-- **The cyclic half of C19 for an assembly function `asm`** (the real `Network.from_units`): on every
 well-formed cyclic flowsheet in which every unit is reachable from a feed, and for every order of the
@@ -185,7 +176,7 @@ theorem sort_keeps_units {ends : List Nat} {it it' : Item} {w : Nat} (h : sortIt
 
 /-- **what is missing**: `fromUnits` itself is not a model of the cyclic half — on the one-loop
 flowsheet `G3` (well-formed, cyclic, every unit fed) it answers `Err.recycle`. -/
-theorem from_units_cyclic_not_modelled : ¬ from_units_cyclic_statement fromUnits := by
+theorem from_units_cyclic_counterexample : ¬ from_units_cyclic_statement fromUnits := by
   intro h
   have e01 : Edge G3 [] 0 1 := ⟨0, by decide, by simp, by decide⟩
   have e10 : Edge G3 [] 1 0 := ⟨1, by decide, by simp, by decide⟩
